@@ -1,0 +1,96 @@
+//! Verification hooks (compiled only with `--cfg taffy_verif`). Add-only instrumentation used by /verif:
+//!  * a trace of every `compute_child_layout` query with its answer and whether it was served from the cache
+//!  * an "exact-key" cache mode in which `Cache` matches on the complete `LayoutInput`
+#![allow(missing_docs)]
+#![allow(clippy::missing_docs_in_private_items)]
+use crate::tree::{LayoutInput, LayoutOutput, NodeId};
+use std::cell::{Cell, RefCell};
+
+#[derive(Debug, Clone, Copy, PartialEq)]
+pub enum QueryKind {
+    /// served from the node's cache
+    Hit,
+    /// computed by the node's layout algorithm (and stored)
+    Miss,
+    /// `RunMode::PerformHiddenLayout`: `compute_hidden_layout`
+    Hidden,
+}
+
+#[derive(Debug, Clone, Copy)]
+pub struct TraceEvent {
+    pub node: NodeId,
+    pub depth: u32,
+    pub input: LayoutInput,
+    pub output: LayoutOutput,
+    pub kind: QueryKind,
+}
+
+thread_local! {
+    static TRACE: RefCell<Option<Vec<TraceEvent>>> = const { RefCell::new(None) };
+    static DEPTH: Cell<u32> = const { Cell::new(0) };
+    static EXACT: Cell<bool> = const { Cell::new(false) };
+    static CURRENT_INPUT: Cell<Option<LayoutInput>> = const { Cell::new(None) };
+}
+
+/// start recording queries on this thread
+pub fn trace_start() {
+    TRACE.with(|t| *t.borrow_mut() = Some(Vec::new()));
+    DEPTH.with(|d| d.set(0));
+}
+/// stop recording and return the events in order of *completion* (children before their parent's miss)
+pub fn trace_take() -> Vec<TraceEvent> {
+    TRACE.with(|t| t.borrow_mut().take().unwrap_or_default())
+}
+pub fn enter() {
+    DEPTH.with(|d| d.set(d.get() + 1));
+}
+pub fn exit(node: NodeId, input: &LayoutInput, output: &LayoutOutput, kind: QueryKind) {
+    let depth = DEPTH.with(|d| {
+        let v = d.get();
+        d.set(v.saturating_sub(1));
+        v
+    });
+    TRACE.with(|t| {
+        if let Some(v) = t.borrow_mut().as_mut() {
+            v.push(TraceEvent { node, depth, input: *input, output: *output, kind });
+        }
+    });
+}
+
+/// switch exact-key cache mode on or off for this thread
+pub fn set_exact_key_mode(on: bool) {
+    EXACT.with(|e| e.set(on));
+}
+pub fn exact_key_mode() -> bool {
+    EXACT.with(|e| e.get())
+}
+/// published by `compute_cached_layout` around `cache_get` / `cache_store`
+pub fn set_current_input(input: Option<LayoutInput>) {
+    CURRENT_INPUT.with(|c| c.set(input));
+}
+pub fn current_input() -> Option<LayoutInput> {
+    CURRENT_INPUT.with(|c| c.get())
+}
+
+fn bits(x: Option<f32>) -> Option<u32> {
+    x.map(|v| v.to_bits())
+}
+/// complete, bitwise equality of two layout inputs
+pub fn same_input(a: &LayoutInput, b: &LayoutInput) -> bool {
+    use crate::style::AvailableSpace as A;
+    let av = |x: A, y: A| match (x, y) {
+        (A::Definite(p), A::Definite(q)) => p.to_bits() == q.to_bits(),
+        (A::MinContent, A::MinContent) | (A::MaxContent, A::MaxContent) => true,
+        _ => false,
+    };
+    a.run_mode == b.run_mode
+        && a.sizing_mode == b.sizing_mode
+        && a.axis == b.axis
+        && bits(a.known_dimensions.width) == bits(b.known_dimensions.width)
+        && bits(a.known_dimensions.height) == bits(b.known_dimensions.height)
+        && bits(a.parent_size.width) == bits(b.parent_size.width)
+        && bits(a.parent_size.height) == bits(b.parent_size.height)
+        && av(a.available_space.width, b.available_space.width)
+        && av(a.available_space.height, b.available_space.height)
+        && a.vertical_margins_are_collapsible == b.vertical_margins_are_collapsible
+}
